@@ -51,7 +51,8 @@ type c06PropScenario struct {
 	N       int    `json:"n"`
 	Rules   string `json:"rules"`
 	Batch   int    `json:"batch"`
-	Actions string `json:"actions"` // per view from 1: p = propose, f = cannot propose, g = f then p, s = skipped
+	Clients int    `json:"clients,omitempty"` // distinct client ids submitting commands (default 3)
+	Actions string `json:"actions"`           // per view from 1: p = propose, f = cannot propose, g = f then p, s = skipped
 }
 
 // recording commit ruler: the real rule set's answer is an input of the model
@@ -210,12 +211,19 @@ func (w *c06World) proposers(t *testing.T, stream *verifStream, name string, sc 
 	// clients: every command goes to every replica (as separate message objects)
 	nextSeq := map[uint32]uint64{}
 	submitted := 0
+	clients := max(sc.Clients, 3)
 	submit := func(k int) {
 		for ; k > 0; k-- {
-			c := uint32(10 + submitted%3)
+			k := submitted % clients
 			submitted++
+			c := uint32(10 + k)
+			data := func(seq uint64) []byte { return []byte{byte(c), byte(seq)} }
+			if clients > 3 {
+				c = uint32(10 + 13*k)
+				data = func(seq uint64) []byte { return []byte{byte(k), byte(k >> 8), byte(k >> 16), byte(seq)} }
+			}
 			nextSeq[c]++
-			cmd := &clientpb.Command{ClientID: c, SequenceNumber: nextSeq[c], Data: []byte{byte(c), byte(nextSeq[c])}}
+			cmd := &clientpb.Command{ClientID: c, SequenceNumber: nextSeq[c], Data: data(nextSeq[c])}
 			for _, r := range reps {
 				r.cache.Add(proto.Clone(cmd).(*clientpb.Command))
 			}
@@ -420,6 +428,12 @@ func (w *c06World) proposerStreams(t *testing.T) {
 			}
 			w.proposers(t, xs, "prop_x", c06PropScenario{N: n, Rules: rulesets[code%3], Batch: 1 + code%2, Actions: string(acts)})
 		}
+	}
+	// scale: the caches' per-client marks and the execution table with far more clients than any
+	// plausible bound; a view that cannot propose in the middle
+	w.proposers(t, xs, "prop_s", c06PropScenario{N: 2, Rules: rulesets[0], Batch: 128, Clients: 1500, Actions: "ppppppppppppfpppppp"})
+	if v.Thorough() {
+		w.proposers(t, xs, "prop_s", c06PropScenario{N: 3, Rules: rulesets[1], Batch: 200, Clients: 5000, Actions: "ppppppppppppppppppppppppppfpppsppppp"})
 	}
 	rs := v.Stream("prop_r", "replica_mismatches", 200)
 	for i := 0; i < v.Pick(150, 3000); i++ {
